@@ -134,13 +134,15 @@ def gen_column(r, name, n, kinds=None):
     elif kind in ('str', 'category', 'string_ext', 'str_pd3'):
         ncat = r.weighted([(5, r.randint(1, 5)), (2, r.randint(15, 24)),
                            (1, 40)])
+        if n > 20 and r.chance(0.6):
+            ncat = 40       # beyond MAX_CATEGORIES distinct values
         pool = []
         while len(pool) < ncat:
             w = r.pick(WORDS) if r.chance(0.6) else (
                 r.pick(WORDS) + str(r.randint(0, 99)))
             if w not in pool:
                 pool.append(w)
-        distinct = r.chance(0.3)
+        distinct = r.chance(0.3) or (n > 20 and ncat == 40)
         vals = []
         for i in range(n):
             if nulls[i]:
@@ -173,7 +175,8 @@ def gen_column(r, name, n, kinds=None):
 
 
 def gen_frame(r, max_rows=12, max_cols=4, kinds=None):
-    n = r.weighted([(1.5, 0), (1, 1), (2, 2), (6, r.randint(3, max_rows))])
+    n = r.weighted([(1.5, 0), (1, 1), (2, 2), (6, r.randint(3, max_rows)),
+                    (0.8, r.randint(21, 32))])
     ncols = r.randint(1, max_cols)
     names = r.sample(FIELD_NAMES, ncols)
     if r.chance(0.6):
